@@ -15,6 +15,7 @@ package routerdrv
 import (
 	"fmt"
 	"math/big"
+	"runtime/debug"
 	"testing"
 
 	sdk "github.com/cosmos/cosmos-sdk/types"
@@ -156,10 +157,10 @@ func (g *gworld) richCtx(ctx sdk.Context) sdk.Context {
 	pctx, _ := ctx.CacheContext()
 	cs := sdk.Coins{}
 	for _, d := range g.denoms {
-		cs = cs.Add(sdk.NewCoin(d, hugeInt(120)))
+		cs = cs.Add(sdk.NewCoin(d, hugeInt(250)))
 	}
 	for _, id := range g.pools {
-		cs = cs.Add(sdk.NewCoin(g.shareDenom(id), hugeInt(120)))
+		cs = cs.Add(sdk.NewCoin(g.shareDenom(id), hugeInt(250)))
 	}
 	g.fund(pctx, g.rich, cs)
 	return pctx
@@ -220,12 +221,17 @@ func (g *gworld) probeJoinErr(id uint64, need []string) {
 }
 
 func (g *gworld) probeJoinExtern(ctx sdk.Context, id uint64, coin sdk.Coin) (osmomath.Int, bool) {
-	pctx := g.richCtx(ctx)
+	// the pool's own calculation on an unsaved copy: the keeper's "shares < minimum" / "shares <= 0" checks come after it
+	// and must not be mistaken for a failure of the math (a tiny join computes 0 shares and then fails on the MINIMUM)
+	pctx, _ := ctx.CacheContext()
 	e := gte{Op: 5, Pool: id, A: g.didx(coin.Denom), B: coin.Amount.String()}
 	var out osmomath.Int
 	err := safe(func() error {
-		var err error
-		out, err = g.h.App.GAMMKeeper.JoinSwapExactAmountIn(pctx, g.rich, id, sdk.Coins{coin}, osmomath.ZeroInt())
+		pool, err := g.h.App.GAMMKeeper.GetCFMMPool(pctx, id)
+		if err != nil {
+			return err
+		}
+		out, _, err = pool.CalcJoinPoolShares(pctx, sdk.Coins{coin}, pool.GetSpreadFactor(pctx))
 		return err
 	})
 	if err == nil {
@@ -818,7 +824,7 @@ func (g *gworld) execIds(ctx sdk.Context, o *opOut) {
 func runC02(t *testing.T, c gcaseIn) (o gobsOut) {
 	defer func() {
 		if x := recover(); x != nil {
-			o.Fatal = fmt.Sprintf("panic: %v", x)
+			o.Fatal = fmt.Sprintf("panic: %v\n%s", x, debug.Stack())
 		}
 	}()
 	h := apph.New(t)
